@@ -1,3 +1,4 @@
+use crate::chess::colour::Colour;
 use crate::chess::mv::Mv;
 use crate::chess::piece::Piece;
 use crate::chess::position::Position;
@@ -6,32 +7,36 @@ use std::str::SplitAsciiWhitespace;
 
 pub fn moves(stream: &mut SplitAsciiWhitespace, pos: &mut Position, history: &mut Vec<u64>) {
     for movestr in stream.by_ref() {
-        let mv = if let Some(gg) = pos.legal_moves().iter().find(|x| x.to_uci(pos) == movestr) {
+        let legal = pos.legal_moves();
+        // Conventional castling strings are also understood in Chess960 mode: the
+        // position is stored from the mover's point of view, so the mover's king home
+        // square is always E1 here. Only a legal castling move is ever selected.
+        let castling = |is_white_string: bool, file: u8| {
+            let mv = Mv {
+                from: Square::from_index(SquareIdx::E1),
+                to: Square::from_coords(file, 0),
+                promo: Piece::None,
+            };
+            let white_to_move = pos.turn == Colour::White;
+            if is_white_string == white_to_move
+                && pos.get_us().is_set(mv.to)
+                && legal.contains(&mv)
+            {
+                Some(mv)
+            } else {
+                None
+            }
+        };
+        let mv = if let Some(gg) = legal.iter().find(|x| x.to_uci(pos) == movestr) {
             Some(*gg)
         } else if movestr == "e1g1" {
-            Some(Mv {
-                from: Square::from_index(SquareIdx::E1),
-                to: Square::from_coords(pos.castle_files[0], 0),
-                promo: Piece::None,
-            })
+            castling(true, pos.castle_files[0])
         } else if movestr == "e1c1" {
-            Some(Mv {
-                from: Square::from_index(SquareIdx::E1),
-                to: Square::from_coords(pos.castle_files[1], 0),
-                promo: Piece::None,
-            })
+            castling(true, pos.castle_files[1])
         } else if movestr == "e8g8" {
-            Some(Mv {
-                from: Square::from_index(SquareIdx::E8),
-                to: Square::from_coords(pos.castle_files[2], 0),
-                promo: Piece::None,
-            })
+            castling(false, pos.castle_files[0])
         } else if movestr == "e8c8" {
-            Some(Mv {
-                from: Square::from_index(SquareIdx::E8),
-                to: Square::from_coords(pos.castle_files[3], 0),
-                promo: Piece::None,
-            })
+            castling(false, pos.castle_files[1])
         } else {
             None
         };
